@@ -141,10 +141,18 @@ fn hdr_split(c0: usize, c1: usize) {
             assert!(h.get_code().map(|c| c as u32 == code).unwrap_or(false));
             assert!(files.as_ref().map_or(0, |f| f.len()) == nfds, "C08: descriptors of the first segment are kept");
         }
-        Err(_) => assert!(!valid, "C08: a well-formed header must be accepted whatever the segmentation"),
+        Err(_) => {
+            assert!(!valid, "C08: a well-formed header must be accepted whatever the segmentation");
+            // SAFETY: ghost state
+            unsafe {
+                assert!(g::G.fd_state[0] != g::FD_OPEN && g::G.fd_state[1] != g::FD_OPEN, "C09: descriptors attached to a header that is refused (wrong version, reserved flag bits, oversized) are closed by the library");
+            }
+        }
     }
     // SAFETY: ghost state
     unsafe { assert!(!g::G.blocked && g::G.rx_pos == 12, "C08: exactly the header is consumed") };
+    // SAFETY: ghost state
+    unsafe { assert!(!g::G.double_close, "C09: double close") };
     std::mem::forget(r);
 }
 fn hdr_truncated(c: usize) {
@@ -289,6 +297,8 @@ macro_rules! c08 {
     };
 }
 // ---- instantiations (generated once by hand-run script; edit freely)
+// @harness props=C01,C08,C09 tier=quick reach=off bound="recv_header: 12 bytes delivered in segments not cut at all (the whole header in one receive); all flags/size words, 0..=2 descriptors on the first segment" stubs="vmm-sys-util raw_recvmsg/raw_sendmsg (ghost stream socket with delivery cuts / partial accepts), close, OwnedFd::drop"
+c08!(c08_u_hdr_whole, 6, hdr_split(12, 12));
 // @harness props=C01,C08,C09 tier=quick reach=off bound="recv_header: 12 bytes delivered in segments cut at 1 and 12; all flags/size words, 0..=2 descriptors on the first segment" stubs="vmm-sys-util raw_recvmsg/raw_sendmsg (ghost stream socket with delivery cuts / partial accepts), close, OwnedFd::drop"
 c08!(c08_u_hdr_split_1_12, 6, hdr_split(1, 12));
 // @harness props=C01,C08,C09 tier=quick reach=off bound="recv_header: 12 bytes delivered in segments cut at 4 and 8; all flags/size words, 0..=2 descriptors on the first segment" stubs="vmm-sys-util raw_recvmsg/raw_sendmsg (ghost stream socket with delivery cuts / partial accepts), close, OwnedFd::drop"
